@@ -58,9 +58,10 @@ void battery(World &w, int ri, uint64_t sel, int nq) {
       if (!a->cs.empty()) { hwloc_obj_t cl[512]; unsigned nc = hwloc_get_closest_objs(t, a->ptr, cl, 512); int prev = -1; std::set<hwloc_obj_t> seen;
         for (unsigned i = 0; i < nc && i < 512; i++) { if (cl[i]->depth != a->depth || cl[i] == a->ptr || !seen.insert(cl[i]).second) viol0(w, own, "helper.closest_objs", "get_closest_objs returned the source, a duplicate or an object of another depth"); hwloc_obj_t ca = hwloc_get_common_ancestor_obj(t, a->ptr, cl[i]); int sz = (int)BSet::from(ca->cpuset).weight(); if (sz < prev) viol0(w, own, "helper.closest_objs", "get_closest_objs is not ordered by ancestor distance"); prev = sz; }
         unsigned expn = 0; for (auto o : level(a->depth)) if (o->ptr != a->ptr && !o->cs.subset_of(a->cs)) expn++; if (nc < 512 && nc != expn) viol0(w, own, "helper.closest_objs", "get_closest_objs returned %u objects, %u objects of that depth are not inside the source's cpuset", nc, expn); } }
-    { // same locality: an object of the requested type with equal sets, or NULL
-      const ObjRec *a = N[g.below(N.size())]; static const hwloc_obj_type_t TY[] = {HWLOC_OBJ_PACKAGE, HWLOC_OBJ_CORE, HWLOC_OBJ_PU, HWLOC_OBJ_NUMANODE, HWLOC_OBJ_L3CACHE, HWLOC_OBJ_GROUP, HWLOC_OBJ_DIE, HWLOC_OBJ_L2CACHE};
+    { // same locality: an object of the requested type with equal sets, or NULL (when a brute-force search finds none); sources include memory objects and CPU-less ones
+      const ObjRec *a = N[g.below(N.size())]; if (!numas.empty() && g.chance(1, 4)) a = numas[g.below(numas.size())]; static const hwloc_obj_type_t TY[] = {HWLOC_OBJ_PACKAGE, HWLOC_OBJ_CORE, HWLOC_OBJ_PU, HWLOC_OBJ_NUMANODE, HWLOC_OBJ_L3CACHE, HWLOC_OBJ_GROUP, HWLOC_OBJ_DIE, HWLOC_OBJ_L2CACHE};
       hwloc_obj_type_t ty = TY[g.below(8)]; hwloc_obj_t sl = hwloc_get_obj_with_same_locality(t, a->ptr, ty, nullptr, nullptr, 0);
+      if (!sl && hwloc_get_type_depth(t, ty) != HWLOC_TYPE_DEPTH_MULTIPLE) { for (uint64_t gp : d.order) /* by-type lookups answer NULL for a type that exists on several levels (documented) */ { const ObjRec &o = d.objs.at(gp); if (o.type == (int)ty && o.kind() <= 1 && o.cs == a->cs && o.ns == a->ns) viol0(w, own, "helper.same_locality", "get_obj_with_same_locality(%s gp=%llu -> %s) returned NULL, %s gp=%llu has the same cpuset and nodeset", hwloc_obj_type_string((hwloc_obj_type_t)a->type), (unsigned long long)a->gp, hwloc_obj_type_string(ty), hwloc_obj_type_string(ty), (unsigned long long)gp); } }
       if (sl) { const ObjRec *so = d.find(sl->gp_index); if (sl->type != ty || !so || so->ptr != sl || so->cs != a->cs || so->ns != a->ns) viol0(w, own, "helper.same_locality", "get_obj_with_same_locality(%s -> %s) returned an object of another type or with other sets", hwloc_obj_type_string((hwloc_obj_type_t)a->type), hwloc_obj_type_string(ty)); } }
     if (!rootcs.empty()) { // distrib over the root
       unsigned nitems = 1 + (unsigned)g.below(20); hwloc_obj_t rootp = hwloc_get_root_obj(t); std::vector<hwloc_bitmap_t> sets(nitems, (hwloc_bitmap_t) nullptr); unsigned long fl = g.chance(1, 2) ? HWLOC_DISTRIB_FLAG_REVERSE : 0; int until = g.chance(2, 3) ? INT_MAX : (int)g.below((uint64_t)depthmax);
